@@ -44,6 +44,16 @@ Theorem c10_bound_replier_leaves_only_by_departure : forall tr s,
 Proof. exact rr_bound_replier_leaves_only_by_departure. Qed.
 Print Assumptions c10_bound_replier_leaves_only_by_departure.
 
+(** the rejection is not left waiting: when a poll returns Pending in a step in which no sink
+    answered Pending (the router is not blocked on anybody), no rejection sits in the one-slot
+    buffer -- the error frame and the close have been dealt with, or the router is at one of the
+    calls on the rejected sink and was told Pending by it *)
+Theorem c10_rejection_never_left_waiting : forall tr s e s',
+  rrun rinit tr = Some s -> rstep s e = Some s' -> rctl s' = RReturn false -> rr_pending_answer e = false ->
+  b_err s' = None.
+Proof. intros tr s e s' H1 H2 H3 H4. exact (proj1 (proj2 (rr_parks_only_when_drained tr s e s' H1 H2 H3 H4))). Qed.
+Print Assumptions c10_rejection_never_left_waiting.
+
 (** Non-vacuity: a second replier arrives while the first is bound and its sink is slow *)
 Example c10_example :
   exists s, rrun rinit
